@@ -22,7 +22,7 @@ class Engine(object):
         self.timeout_ms = timeout_ms
         self.seed = seed
         self.ext = []              # extension objects (language layer, bdd layer)
-        self.global_axioms = [hp.pick_axiom(), hp.empty_rel_axiom()] + hp.isend_axioms()
+        self.global_axioms = [hp.pick_axiom(), hp.pickR_axiom(), hp.empty_rel_axiom()] + hp.isend_axioms()
         self.baseline_names = set()
         self.escalations_left = 3
 
@@ -63,7 +63,7 @@ class Engine(object):
             if attr == 'S0' and base.ty == 'kripke':
                 return SV('set', h.field('S0', base.t))
             return SV('bound', None, (base, attr))
-        if base.ty in ('set', 'list', 'dlist', 'dict', 'fdict', 'keys', 'pairlist', 'str', 'coll', 'reflist', 'clist'):
+        if base.ty in ('set', 'list', 'dlist', 'dict', 'fdict', 'keys', 'pairlist', 'str', 'coll', 'reflist', 'refset', 'clist'):
             return SV('bound', None, (base, attr))
         if base.ty == 'super':
             return SV('bound', None, (base, attr))
@@ -231,6 +231,11 @@ class Engine(object):
                 vals.add(int(a.t.as_long()) if a.ty == 'int' else (1 if z3.is_true(a.t) else 0))
             return SV('constset', None, vals)
         if name == 'set':
+            if not args and ex.k.hints.get('set_kind_default') == 'refset':
+                r_, h_ = path.heap.new()
+                path.heap = h_.with_(refsets=z3.Store(h_['refsets'], r_, z3.K(I, z3.BoolVal(False))),
+                                     b_node=z3.Store(h_['b_node'], r_, z3.BoolVal(False)))
+                return SV('refset', r_)
             if not args:
                 return ex.alloc_set(path, hp.empty_set())
             a = args[0]
@@ -365,6 +370,27 @@ class Engine(object):
                 path.heap = h.with_(sets=z3.Store(h['sets'], base.t, ex.name_array(
                     path, z3.Lambda([x], z3.Or(h.set_of(base.t)[x], c.mem[x])))))
                 return hp.NONE
+        if base.ty == 'refset' and attr == 'add' and args[0].ty in hp.REF_TYPES:
+            self.check_write(ex, ('refsets', base.t), path, e)
+            path.heap = h.with_(refsets=z3.Store(h['refsets'], base.t, z3.Store(h['refsets'][base.t], args[0].t, True)))
+            return hp.NONE
+        if base.ty == 'reflist' and attr == 'append' and args[0].ty in hp.REF_TYPES:
+            self.check_write(ex, ('refsets', base.t), path, e)
+            path.heap = h.with_(refsets=z3.Store(h['refsets'], base.t, z3.Store(h['refsets'][base.t], args[0].t, True)))
+            return hp.NONE
+        if base.ty == 'reflist' and attr == 'pop' and not args:
+            # bag abstraction: an arbitrary element; the remainder is any bag between (old minus that element) and old
+            S = h['refsets'][base.t]
+            ex.may_raise('IndexError', z3.Not(hp.nonemptyR(S)), path, e)
+            v = hp.fresh('popped', I)
+            rest = hp.fresh('rest', hp.SetR)
+            y = z3.Int('y!pop')
+            path.pc.append(S[v])
+            path.pc.append(z3.ForAll([y], z3.Implies(rest[y], S[y]), patterns=[rest[y]]))
+            path.pc.append(z3.ForAll([y], z3.Implies(z3.And(S[y], y != v), rest[y]), patterns=[S[y]]))
+            self.check_write(ex, ('refsets', base.t), path, e)
+            path.heap = h.with_(refsets=z3.Store(h['refsets'], base.t, rest))
+            return SV(base.x or 'bnode', v)
         if base.ty == 'list':
             if attr == 'append' and args[0].ty == 'H':
                 self.check_write(ex, ('sets', base.t), path, e)
